@@ -58,7 +58,7 @@ def password_rule(prog, rep):
     rep.ob("password-rule", "trigger set", info["trig"] == {"Z"}, "find() stops at a character of class %s; must stop exactly at non-ASCII spaces {Z}" % sorted(info["trig"]), b.where(), key="password-rule|trigger")
     rep.ob("password-rule", "no non-ASCII space ⇒ input returned unchanged", info["none_result"] == ("Ok", ("input",)) and not info["none_events"], "returns %s" % (info["none_result"],), b.where())
     aut = info["aut"]
-    rep.ob("password-rule", "mapping loop is stateless", aut.nstates() == 1, "%d loop states: the result for a character depends on what precedes it" % aut.nstates(), b.where(), key="password-rule|stateless")
+    rep.ob("password-rule", "mapping loop is stateless", fcd.behavioural_states(aut, ALPHA) == 1, "%d behaviourally different loop states: the result for a character depends on what precedes it" % fcd.behavioural_states(aut, ALPHA), b.where(), key="password-rule|stateless")
     try:
         per, q0, end_ev, end_res = fcd.letter_outputs(aut, ALPHA)
     except AnalysisError as e:
